@@ -1104,6 +1104,29 @@ def stage_explore(ctx):
                           % (desc, size, seed, len(xs), pv), dict(kind="ks", prior=desc, seed=seed, size=size, n=len(xs), p=pv))
 
 
+# ------------------------------------------------------------------------------------------
+# source tie: the arithmetic one-liners of core/prior.py as written now
+
+PRIOR_PY = "holopy/core/prior.py"
+SRC_ITEMS = [
+    dict(file=PRIOR_PY, qualname="Prior.scale", name="scale_src", rettype="R", params=[("physical", "R")], self_attrs={"scale_factor": "sf"}),
+    dict(file=PRIOR_PY, qualname="Prior.unscale", name="unscale_src", rettype="R", params=[("scaled", "R")], self_attrs={"scale_factor": "sf"}),
+    dict(file=PRIOR_PY, qualname="Gaussian.variance", name="gaussian_variance_src", rettype="R", params=[], self_attrs={"sd": "sd"}),
+    dict(file=PRIOR_PY, qualname="Gaussian.lnprob", name="gaussian_lnprob_src", rettype="R", params=[("p", "R")],
+         self_attrs={"_lnprob_normalization": "nrm", "mu": "mu", "variance": "var"}),
+    dict(file=PRIOR_PY, qualname="Uniform.interval", name="uniform_interval_src", rettype="R", params=[],
+         self_attrs={"lower_bound": "lo", "upper_bound": "hi"}),
+    dict(file=PRIOR_PY, qualname="Uniform.prob", name="uniform_prob_src", rettype="R", params=[("p", "R")],
+         self_attrs={"lower_bound": "lo", "upper_bound": "hi", "interval": "iv"}),
+]
+
+
+def stage_srctie(ctx):
+    from harness.lib import srctie
+    ok = srctie.run(ctx, "C14", "From HV Require Import C14.Model C14.Lemmas C14.Props.\n", SRC_ITEMS)
+    ctx.count("srctie:%s" % ("ok" if ok else "broken"))
+
+
 def run(ctx):
     ctx.rule = ("Uniform bounds finite / half-infinite / infinite / malformed over 2^-24..2^24, guesses None / inside / on a bound / "
                 "just outside / near 0; Gaussian mu, sd over 2^-20..2^20 incl. sd<=0; BoundedGaussian with mu inside / on / outside, "
@@ -1130,7 +1153,10 @@ def run(ctx):
                     "oracle: operator.pow and np.sqrt/np.exp/np.log applied by TransformedPrior - universally quantified in the theorems, keyed tables from math in the check",
                     "oracle: numpy legacy RandomState (random_sample / standard_normal streams, stream continuity across calls) - recorded draws; theorems quantify over all streams",
                     "Coq-Interval (enclosure stage): its tactic and primitive-integer/float kernel features"]
+    ctx.trusted.append("source translator harness/lib/pysrc.py (python floats read as reals; see its docstring) for the source tie")
+    ctx.clauses_proved.append("source tie: Prior.scale / unscale, Gaussian.variance / lnprob, Uniform.interval / prob of core/prior.py, translated from the current source text on every run, are proved equal to the model; scaling round trip, exp(lnprob) = textbook Gaussian density and the Uniform density restated for the translated source")
     guarded(ctx, "prove", ctx.prove)
+    guarded(ctx, "source-tie", stage_srctie, ctx)
     boot.boot()
     guarded(ctx, "uniform", stage_uniform, ctx)
     guarded(ctx, "gaussian", stage_gaussian, ctx)
@@ -1148,7 +1174,10 @@ def replay(ctx, data):
     boot.boot()
     d = data["data"]
     kind = d.get("kind")
-    if kind == "bg-sample":
+    if kind == "tie":
+        ctx.prove()
+        stage_srctie(ctx)
+    elif kind == "bg-sample":
         from holopy.core.prior import BoundedGaussian
         lo, hi = _unj(d["lo"]), _unj(d["hi"])
         p = BoundedGaussian(d["mu"], d["sd"], lo, hi)
